@@ -176,6 +176,16 @@ def returns_of(F, cg, fn, amap=None, prefix=(), depth=0):
                     here.add('%s=Some' % inline.subst(sdesc_operand(B, t['args'][0]), amap))
                 out.append(('Ok', sorted(here)))
                 continue
+            if (t.get('callee') or '') in ('<std::option::Option<T>>::map', '<std::result::Result<T, E>>::map'):
+                # tail `x.map(f)`: Some(f(v)) when x is Some, None when x is None (Result: Ok(f(v)) / the Err passed through)
+                here = set(prefix) | inline.fact_strings(structural_facts(B, i), canon_fact, amap)
+                r = inline.subst(sdesc_operand(B, t['args'][0]), amap)
+                if 'Option' in t.get('callee'):
+                    out.append(('Some', sorted(here | {'%s=Some' % r})))
+                    out.append(('None', sorted(here | {'%s=None' % r})))
+                else:
+                    out.append(('Ok', sorted(here)))
+                continue
             if c.split('::')[-1] == 'from_residual':
                 continue          # the error arm of `?` (whether it is reachable at all depends on the callee: NeverErr pruning)
             if not (depth < 3 and c != fn and inline.is_new_helper(F, c)):
@@ -243,6 +253,11 @@ COMB = {
     '<std::result::Result<T, E>>::map_err': ('Err', ' as Err.0'),
     '<std::result::Result<T, E>>::unwrap_or_else': ('Err', ' as Err.0'),
     '<std::result::Result<T, E>>::or_else': ('Err', ' as Err.0'),
+    # value-side combinators: the closure is the Some / Ok arm
+    '<std::option::Option<T>>::map': ('Some', ' as Some.0'),
+    '<std::option::Option<T>>::and_then': ('Some', ' as Some.0'),
+    '<std::result::Result<T, E>>::map': ('Ok', '?'),
+    '<std::result::Result<T, E>>::and_then': ('Ok', '?'),
 }
 _UPV = re.compile(r'upvar#(\d+)')
 
@@ -276,13 +291,13 @@ def _sub_closure(s, ups, amap):
     return inline.subst(s, amap)
 
 
-def comb_sites(F, cg, B, i, t, facts):
+def comb_sites(F, cg, B, i, t, facts, _depth=0):
     """call sites of the closure given to an error-side combinator, as if they stood in the None / Err arm of a match on the receiver"""
     c = t.get('callee') or ''
     variant, payload = COMB[c]
     recv = sdesc_operand(B, t['args'][0])
     ups = _closure_operands(B, t)
-    pre = sorted(set(facts) | {'%s=%s' % (recv, variant)})
+    pre = sorted(set(facts) | ({'%s=%s' % (recv, variant)} if variant != 'Ok' else set()))          # (`x is Ok` is never recorded: it is implied)
     out = []
     for cname in t.get('callable_args') or []:
         if cname not in F.bodies:
@@ -291,12 +306,24 @@ def comb_sites(F, cg, B, i, t, facts):
         amap = {2: recv + payload} if payload else {}
         for ci, ct in CB.calls():
             cfacts = sorted(set(pre) | {_sub_closure(f, ups, amap) for f in inline.fact_strings(structural_facts(CB, ci), canon_fact)})
+            if (ct.get('callee') or '') in COMB and ct.get('callable_args') and _depth < 2:
+                # a combinator inside the closure: its closure is described one level further in
+                for CB2, ci2, ct2, cf2, ups2, amap2 in comb_sites(F, cg, CB, ci, ct, cfacts, _depth + 1):
+                    # the inner closure's captures / parameter are expressed in the outer closure's terms first, then in the caller's
+                    out.append((CB2, ci2, ct2, [_sub_closure(f, ups, amap) for f in cf2], [_sub_closure(u, ups, amap) for u in ups2],
+                                {k: _sub_closure(v, ups, amap) for k, v in amap2.items()}))
+                continue
             out.append((CB, ci, ct, cfacts, ups, amap))
     return out
 
 
 def rewrite_comb(s):
-    """`ok_or_else(R,closure)?` is the payload of R when it is Some; `map_err(R,closure)?` is `R?`"""
+    """`ok_or_else(R,closure)?` is the payload of R when it is Some; `map_err(R,closure)?` is `R?`; `R.map(f)` is Some / Ok exactly when R is"""
+    m = re.match(r'^map\((.*),closure\)=(Some|None|Ok|Err)$', s)
+    if m:
+        from errguard import _split2
+        if _split2(m.group(1)) is None:
+            s = '%s=%s' % (m.group(1), m.group(2))
     for name, repl in (('ok_or_else(', '%s as Some.0'), ('ok_or(', '%s as Some.0'), ('map_err(', '%s?')):
         start = 0
         while True:
@@ -353,6 +380,7 @@ def _collect(F, cg, fns):
                 continue
             stream.append((_B, i, t, facts, _inl, None))
         for _B, i, t, facts, _inl, clo in stream:
+            facts = sorted(set(facts))
             c = (t.get('callee') or callee_of(t) or '')
             short = c.split('::')[-1]
             if c.startswith('<std::io::Error>::'):
